@@ -200,8 +200,9 @@ theorem decode_encode_ascii (s : List Nat) (hs : ∀ r ∈ s, r < 128) :
       simp only [reduceCtorEq, if_false]
       unfold decode decodeRunes
       rw [splitLast_append_hyphen]
-      simp only [List.cons_append, Option.map_some]
-      rw [map_goRune_ascii _ hs]
+      have hasc : isAscii (c :: cs) = true := by
+        unfold isAscii; rw [List.all_eq_true]; intro r hr; simpa using hs r hr
+      simp [hasc, map_goRune_ascii _ hs]
 
 theorem encInner_prefix (n b : Nat) (rs : List Nat) (st st' : EncSt) (h : encInner n b rs st = some st') :
     st.out <+: st'.out := by
